@@ -1,7 +1,7 @@
 """C38  Constant folding agrees with run-time arithmetic.
 
-Real code: ppci.opt.constantfolding.ConstantFolder (run / on_block / is_const / eval_const, the
-operator table `ops`, `correct`, `cast`, `enhance`) executed on small REAL ir.Module objects whose
+Real code: ppci.opt.constantfolding.ConstantFolder (run / on_block / is_const / is_defined /
+eval_const, the operator table `ops`, `correct`, `cast`, `remainder`, `enhance`) executed on small REAL ir.Module objects whose
 ir.Const instructions carry symbolic values ranging over the whole integer type; additionally
 ppci.opt.cjmp.CJumpPass (compile-time evaluation of a comparison of two constants) and
 ppci.opt.transform.RemoveAddZeroPass (x+0, 0+x, x*1) on the same kind of modules.
@@ -75,6 +75,9 @@ ASSUMPTIONS = ["IR integer semantics as written in /verif/ref/irarith.py (two's 
                "only if the analysed code calls math.fmod on constants (the pinned code does not): int->double conversion is "
                "round-to-nearest-even to 53 significant bits and C fmod is exact (IEEE 754), modelled in props/C38.py:_SymMath, "
                "validated against the real math.fmod on every explored path",
+               "the helpers `correct` and `remainder` of ppci.opt.constantfolding are executed in if-converted form (symx.ifconv on "
+               "their current source: the conditional expression on the sign of the computed value becomes an if-then-else term) "
+               "during symbolic exploration; every explored path is re-run concretely on the untouched functions and must agree",
                "the reading back of the IR after the pass (props/C38.py describe/evaluate) follows the operand slots "
                "Binop.a/.b, Cast.src, Const.value, Return.result, Jump.target"]
 SHIMS_USED = ["isinstance", "int", "bool"]
